@@ -962,6 +962,10 @@ def main():
         print('covers: %d/%d satisfied' % (sum(1 for c in r['covers'] if c['status'] == 'satisfied'), len(r['covers'])))
         return 0
     if a.cmd == 'check':
+        if a.pid == 'C19':
+            # C19 is decided by the static-ownership scan of the whole library, not by contract units
+            import symtab
+            return symtab.check_c19(a.tier)
         only = a.only.split(',') if a.only else None
         return check_property(a.pid, a.tier, only=only, keep=a.keep)
     ap.print_help()
